@@ -160,6 +160,25 @@ def run(prog, chk):
                     ok = SX.is_node(other) and other['k'] == 'member' and other['name'] == n['name'] and SX.show(other['base']) != SX.show(n['base'])
                 if not ok and par is not None and par.get('k') == 'call' and SX.short(par.get('callee', '')) in TUPLERS:
                     ok = _tuple_pairwise(f, pm, par)
+                if not ok and par is not None and par.get('k') == 'var' and (par.get('const') or 'const' in (par.get('type') or '')):
+                    # `const int mine = current.major;` — the local stands for the component: every use of it is a comparison with
+                    # the same component of the other version
+                    uses = []
+                    for x in SX.walk(f.body, into_lambdas=False):
+                        if x['k'] == 'ref' and x.get('id') == par.get('id'):
+                            px = pm.get(id(x))
+                            while px is not None and px.get('k') == 'cast':
+                                px = pm.get(id(px))
+                            uses.append((x, px))
+                    ok = bool(uses)
+                    for x, px in uses:
+                        if not (px is not None and px.get('k') == 'bin' and px['op'] in ('==', '!=', '<', '>', '<=', '>=')):
+                            ok = False
+                            continue
+                        other = px['r'] if px['l'] is x else px['l']
+                        a, b = _comp(f, x), _comp(f, other)
+                        if not (a and b and a[1] == b[1] and a[0] != b[0]):
+                            ok = False
                 if ok:
                     chk.ob('R20.1', f, n.get('ln', f.ln), True, 'version component %s compared with the same component of the other version' % SX.show(n),
                            key='pairwise:%s' % f.short, nontrivial=False)
